@@ -352,6 +352,8 @@ def gen_ops(rng, wrapped, text=False):
     for _ in range(rng.choice([1, 2, 3, 4, 6, 9])):
         q = rng.random()
         size = rng.choice([1, 1, 2, 3, 4, 5, 7, 8, 10, 16, 100, 70000])
+        if not wrapped and rng.random() < 0.02:
+            size = 0  # outside the property's quantifier; kept for the model correspondence only
         if q < 0.35:
             ops.append(f"r{size}")
         elif q < 0.47:
